@@ -261,6 +261,10 @@ theorem opBuf_inv (s : L) (k : Char) (n : Nat) (hi : Ledger.Inv s) : Ledger.Inv 
       simp only [hf, Bool.false_eq_true, if_false]
       exact inv_of_same ha hi
   · exact hi
+  · -- view over caller memory: no block, nothing owned
+    rename_i hbuf
+    apply inv_buf s _ hi 0 <;> simp [hbuf, bufN, Buf.view]
+  · exact hi
   · -- append
     rename_i b hbuf
     simp only [bufGrow]
